@@ -1,6 +1,7 @@
 import IPT.Thm.C05
 import IPT.Thm.C06
 import IPT.Thm.C12
+import IPT.Thm.C13
 /-
   C02 — Shurooq and Maghrib are sunrise and sunset of the Sun's upper limb (PARTIAL).
   Proved: the altitude constant is −0.8333° within 10⁻³; the first approximation of rise/set is the
@@ -80,5 +81,12 @@ theorem refraction_is_only_use (w : Weather ℝ) (alt : ℝ) :
     refraction w alt = w.pressure / 1010 * (283 / (273 + w.temperature)) *
       (1.02 / (toDegrees (Real.tan (toRadians (alt + 10.3 / (alt + 5.11)))) + 0.0019279)) / 60 := by
   simp only [refraction, sc_tan]; norm_num
+
+/-- the hour angles of this property interpolate the right ascension with the deltas of the
+    unwrapped sequence (Thm C13 `ra_wrap_lift`, restated: this property depends on it) -/
+theorem ra_wrap_lift (P C N : ℝ) (hC0 : 0 ≤ C) (hC1 : C < 360)
+    (hp0 : 0 < C - P) (hp1 : C - P < 10) (hn0 : 0 < N - C) (hn1 : N - C < 10) :
+    raInterpDeltas (if P < 0 then P + 360 else P) C (if 360 ≤ N then N - 360 else N) = (N - P, N + P - 2 * C) :=
+  C13.ra_wrap_lift P C N hC0 hC1 hp0 hp1 hn0 hn1
 
 end IPT.C02
